@@ -45,9 +45,19 @@ fn statement_dependencies(statement: &Statement) -> BTreeSet<usize> {
         }
         S::Ret { value: None, .. } => BTreeSet::new(),
 
-        S::Blob { .. }
-        | S::Enum { .. }
-        | S::ExternalDefinition { .. }
+        // A type declaration needs the types its members mention to be declared first.
+        // Mentioning itself is fine.
+        S::Blob { var, fields: members, .. } | S::Enum { var, variants: members, .. } => {
+            let mut deps = members
+                .values()
+                .map(|(_, ty)| ty_dependency(ty).into_iter())
+                .flatten()
+                .collect::<BTreeSet<_>>();
+            deps.remove(var);
+            deps
+        }
+
+        S::ExternalDefinition { .. }
         | S::Break(..)
         | S::Continue(..)
         | S::Unreachable(..) => BTreeSet::new(),
@@ -211,6 +221,12 @@ fn order<'a>(
             Vacant(entry) => entry.insert(State::Inserting),
             Occupied(entry) => {
                 return match entry.get() {
+                    // Types may refer to each other in a cycle, values may not.
+                    State::Inserting
+                        if matches!(statement, Statement::Blob { .. } | Statement::Enum { .. }) =>
+                    {
+                        Ok(())
+                    }
                     State::Inserting => Err(Vec::new()),
                     State::Inserted => Ok(()),
                 }
